@@ -24,6 +24,9 @@ type handle struct {
 	ref  ref.Value
 	real value.Value
 	how  string
+	// quiet > 0: the handle is not observed for that many steps, so that a lazily produced list is still
+	// unevaluated when the next operation is applied to it
+	quiet int
 }
 
 type hist struct {
@@ -159,6 +162,7 @@ func (h *hist) observe(i int, what string, prog *ref.Node, extra ...*handle) boo
 	if got.Panic != nil {
 		fo.Panic = got.Panic
 	}
+	fo.FloatTol = regroupTol(true, src)
 	v, why := bridge.CompareOutcome(wv, we, false, fo)
 	if v == bridge.Disagree {
 		h.violation("observer:"+what, fmt.Sprintf("handle h%d (made by %s) observed through %q: %s", i, h.hs[i].how, src, why))
